@@ -639,6 +639,9 @@ func (x *exec) evCall(n *ECall, env *Env, hint types.Type) *Val {
 		if id, ok := sel.X.(*EId); ok {
 			if _, isVar := env.vars[id.Name]; !isVar && (env.cell == nil || env.cell(id.Name) == nil) {
 				if p := x.findPkg(env.pkg, id.Name); p != nil {
+					if sf := x.p.Contracts.Specs[p.Path()][sel.Name]; sf != nil {
+						return x.callSpec(sf, n.Args, env) // spec function of another package's contract file
+					}
 					obj := p.Scope().Lookup(sel.Name)
 					switch o := obj.(type) {
 					case *types.Func:
@@ -892,6 +895,18 @@ func (x *exec) compileSpec(sf *Contract, env *Env) *specFn {
 	}
 	f.rt = x.p.resolveType(sf.SpecRTy, tp)
 	x.specFns[key] = f
+	if sf.Uninterp {
+		var sorts []string
+		for _, pt := range f.ptypes {
+			if sl, ok := pt.Underlying().(*types.Slice); ok {
+				sorts = append(sorts, fmt.Sprintf("(Array %s %s)", x.c.I(), x.c.SortOf(sl.Elem())), x.c.I(), x.c.I())
+				continue
+			}
+			sorts = append(sorts, x.c.SortOf(pt))
+		}
+		x.c.Fun(f.name, sorts, x.c.SortOf(f.rt))
+		return f
+	}
 	// two passes: the first discovers which heap arrays the body reads
 	var body string
 	for pass := 0; pass < 3; pass++ {
